@@ -522,6 +522,32 @@ class TruncAccept(Op):
             mode, cfg, text = tprops.gen_case(rng)
             if cfg[2]:
                 yield ("text", mode, cfg, text)
+        # a short year (year of century / of decade) with a year-dependent upper bound: 29 Feb, day 366, week 53
+        for _ in range(n // 3):
+            m = gens.mode(rng)
+            ned = rng.choice([0, 0, 2])
+            cfg = (ned, False, True, ("u",))
+            yy = rng.choice([0, 1, 3, 4, 5, 15, 16, 20, 26, 96, 99, rng.randint(0, 99)])
+            z = rng.randint(0, 9)
+            form = rng.choice(["%02d-02-%02d" % (yy, rng.choice([28, 29, 29, 30])),
+                               "%02d02%02d" % (yy, rng.choice([28, 29, 29, 30])),
+                               "%02d-%03d" % (yy, rng.choice([360, 361, 365, 366, 366, 367])),
+                               "%02d%03d" % (yy, rng.choice([360, 361, 365, 366, 366, 367])),
+                               "%02dW%02d" % (yy, rng.choice([51, 52, 53, 53, 54])),
+                               "%02d-W%02d-%d" % (yy, rng.choice([52, 53, 53, 54]), rng.randint(1, 7)),
+                               "%02dW%02d%d" % (yy, rng.choice([52, 53, 53, 54]), rng.randint(1, 7)),
+                               "-%dW%02d" % (z, rng.choice([52, 53, 53, 54])),
+                               "-%d-W%02d-%d" % (z, rng.choice([52, 53, 53, 54]), rng.randint(1, 7)),
+                               "-%dW%02d%d" % (z, rng.choice([52, 53, 53, 54]), rng.randint(1, 7))])
+            if rng.random() < 0.3:
+                form += rng.choice(["T06", "T0630", "T24", "T-30"])
+            yield ("text", m, cfg, form)
+            if rng.random() < 0.4:
+                nm, v = rng.choice([("year_of_century", yy), ("year_of_decade", z)])
+                kw = rng.choice([(("day_of_month", rng.choice([28, 29, 30])), ("month_of_year", 2)),
+                                 (("day_of_year", rng.choice([360, 361, 365, 366, 367])),),
+                                 (("week_of_year", rng.choice([52, 53, 54])),)])
+                yield ("ctor", m, tuple(sorted(kw + (("truncated_property", nm), ("year", v)))), "")
         fields = list(self.RANGES)
         for _ in range(n // 3):
             m = gens.mode(rng)
@@ -556,6 +582,9 @@ class TruncAccept(Op):
             return "%s raised %s" % (self.line(a), out)
         if not out.startswith("D "):
             return None
+        short = self.short_year(a, out)
+        if short:
+            return short
         for item in out[2:].split(";"):
             if not item:
                 continue
@@ -570,6 +599,35 @@ class TruncAccept(Op):
             bad = v < lo or v > hi or (upper_open and v >= hi) or (name == "hour_of_day" and v == 24 and has_frac)
             if bad:
                 return "%s: accepted with %s = %s, outside its legal range" % (self.line(a), name, val)
+        return None
+
+    def short_year(self, a, out):
+        """A point holding only the year of its century / decade is possible only if SOME year with those last
+        digits has the month length, the day of the year or the week of the year that it names."""
+        props = {}
+        for item in out[2:].split(";"):
+            name, _, val = item.partition("=")
+            if name:
+                props[name] = int(val.partition("+")[0])
+        if "year_of_century" in props:
+            years = [y for y in range(0, 400) if y % 100 == props["year_of_century"]]
+        elif "year_of_decade" in props:
+            years = [y for y in range(0, 400) if y % 10 == props["year_of_decade"]]
+        else:
+            return None
+        m = a[1]
+
+        def possible(y):
+            if "month_of_year" in props and "day_of_month" in props and 1 <= props["month_of_year"] <= 12:
+                if props["day_of_month"] > oracle.month_len(m, y, props["month_of_year"]):
+                    return False
+            if "day_of_year" in props and props["day_of_year"] > oracle.year_len(m, y):
+                return False
+            if "week_of_year" in props and props["week_of_year"] > oracle.weeks_in_year(m, y):
+                return False
+            return True
+        if not any(possible(y) for y in years):
+            return "%s: accepted (%s) though no year ending in those digits has such a date" % (self.line(a), out)
         return None
 
     def label(self, a):
